@@ -131,9 +131,11 @@ var specs = map[string]propSpec{
 			{Name: "enum-deep-nesting", Test: "TestC06Deep", QuickShards: 2, ThoroughShards: 4, ThoroughTimeoutS: 3000},
 			{Name: "enum-mixed-nesting", Test: "TestC06Mixed", QuickShards: 2, ThoroughShards: 2},
 			{Name: "enum-two-phase-nesting", Test: "TestC06TwoPhase", QuickShards: 4, ThoroughShards: 5, ThoroughTimeoutS: 3000},
+			{Name: "enum-pumped-segments", Test: "TestC06Pumped", QuickShards: 4, ThoroughShards: 8, ThoroughTimeoutS: 3000},
+			{Name: "enum-short-byte-strings", Test: "TestC06ShortBytes", QuickShards: 1, ThoroughShards: 1},
 			{Name: "fuzz-compile", Fuzz: "FuzzCompile", Tier: "thorough", FuzzTimeS: 120, ThoroughShards: 1, ThoroughTimeoutS: 900},
 		},
-		Assumptions: []string{"termination is decided within an explicit wall-clock margin (20 s for inputs <= 64 KB whose typical cost is < 10 ms, re-tried once alone); an algorithm that is merely slow on inputs larger than the generated ones is out of reach", "the quick tier runs the depth cases under debug.SetMaxStack(8 MB): a legitimate process configuration under which unbounded recursion shows at depth 10^5 instead of 3*10^6"},
+		Assumptions: []string{"termination is decided within an explicit wall-clock margin (20 s for inputs <= 64 KB whose typical cost is < 10 ms, re-tried once alone); an algorithm that is merely slow on inputs larger than the generated ones is out of reach", "for repeated sibling constructs termination is decided by an allocation budget: a Compile of an input of at most a few KB that performs more than 6*10^7 heap allocations is reported as not terminating (the engine's own limit keeps every Compile below 2*10^7)", "the quick tier runs the depth cases under debug.SetMaxStack(8 MB): a legitimate process configuration under which unbounded recursion shows at depth 10^5 instead of 3*10^6"},
 	},
 	"C07": {
 		Units: []unitSpec{
